@@ -55,13 +55,16 @@ Definition outcome_ok (c : iter_case) (o : pass_out) : bool :=
   | POk files' made _ => Bool.eqb made (negb (i_last c)) && fs_equiv files' (i_next c)
   end.
 
+(* the order in which the violations are given is tried first (the driver sorts the per-file groups by what
+   happened to the file: content changed, then moved away, then untouched); only when that fails, every
+   permutation of the groups is *)
 Definition iter_agrees (c : iter_case) : bool :=
-  existsb (fun p => outcome_ok c (model_pass c (concat p))) (perms (groups (i_viol c))).
+  if outcome_ok c (model_pass c (i_viol c)) then true
+  else existsb (fun p => outcome_ok c (model_pass c (concat p))) (perms (groups (i_viol c))).
 
 (* an iteration whose model ran out of candidate fuel (none expected: RFUEL exceeds every file set) *)
 Definition iter_unmodelled (c : iter_case) : bool :=
-  existsb (fun p => match model_pass c (concat p) with PFuel => true | _ => false end)
-          (perms (groups (i_viol c))).
+  match model_pass c (i_viol c) with PFuel => true | _ => false end.
 
 (* ---- one handleRename as the file provider saw it: the files held when it started, the target of the
         first Rename request, every name asked for in order, and whether the last request succeeded ---- *)
